@@ -7,15 +7,18 @@ import (
 
 	"mellium.im/xmpp/bin"
 	"mellium.im/xmpp/crypto"
+	"mellium.im/xmpp/delay"
 	"mellium.im/xmpp/disco"
 	"mellium.im/xmpp/disco/info"
 	"mellium.im/xmpp/file"
 	"mellium.im/xmpp/form"
+	"mellium.im/xmpp/forward"
 	"mellium.im/xmpp/history"
 	"mellium.im/xmpp/jid"
 	"mellium.im/xmpp/muc"
 	"mellium.im/xmpp/stanza"
 	"mellium.im/xmpp/styling"
+	"mellium.im/xmpp/xtime"
 	"verifharness/hx"
 )
 
@@ -128,6 +131,16 @@ func init() {
 		"crypto.HashOutput": {crypto.HashOutput{Hash: crypto.SHA1}},
 		"crypto.Key":        {crypto.Key{Trusted: true, KeyID: []byte("abc")}},
 		"history.Query":     {&history.Query{ID: "q", PageID: "p1", Limit: 3, Start: time.Unix(1000, 500000000)}, &history.Query{Last: true, PageID: "p"}},
+	}
+	// every type carrying a time, over every zone of the generator (offsets of both
+	// signs with and without minutes and seconds): deterministic witnesses
+	for _, t := range zoneSweep() {
+		extraCorpus["xtime.Time"] = append(extraCorpus["xtime.Time"], xtime.Time{Time: t})
+		extraCorpus["delay.Delay"] = append(extraCorpus["delay.Delay"], delay.Delay{Time: t})
+		extraCorpus["stanza.Delay"] = append(extraCorpus["stanza.Delay"], stanza.Delay{Stamp: t})
+		extraCorpus["forward.Forwarded"] = append(extraCorpus["forward.Forwarded"], forward.Forwarded{Delay: delay.Delay{Time: t, Reason: "r"}})
+		extraCorpus["file.Meta"] = append(extraCorpus["file.Meta"], &file.Meta{Name: "z", Date: t})
+		extraCorpus["history.Query"] = append(extraCorpus["history.Query"], &history.Query{ID: "z", Start: t, End: t.Add(90 * time.Minute)})
 	}
 }
 
